@@ -75,6 +75,8 @@ var nilTable = map[string]tabEntry{
 
 // errTable: deliberate drops / fallbacks, confirmed by reading.
 var errTable = map[string]tabEntry{
+	"planner.extractSelectionSet/test (*planner.PlanningContext).GetURL": {1,
+		"deliberate fallback (comment in the source): a field GetURL knows no route for stays in the current step. Routes exist for every field of every object type except `id`, the relay `node` field and built-ins (TypeURLMap.SetFromSchema; R13c/R13d), and interface fields have none by construction — so the fallback sees `id` and interface fields only. Before the repair of isNodeField (F16) it also saw service fields shaped like the node field, and the swallowed error hid that they had no route (audit: this line was wrong then; reproduction kept in repro/audit2__root__audit_route_test.go.txt)"},
 	"queryer.(*MultiOpQueryer).Subscribe$2/test encoding/json.Unmarshal": {2,
 		"two fallback decodings in the upstream reader: a frame that does not decode as a data frame is tried as an error frame (and that second failure is reported to the subscriber); an error frame whose payload is not a single error object falls back to a generic error that is reported as well — in neither case does a failure go unreported"},
 	"format.(*Formatter).write/drop io.Writer.Write": {1,
